@@ -23,6 +23,39 @@ pub fn inputs_c01(r: &mut Rng, n: usize, _tier: &str, out: &mut dyn Write) {
             }
         }
     }
+    // products just INSIDE the bounds: the exact product of Duration x i64 is representable but within a few tens of
+    // milliseconds (a relative 2^-51) of MAX or MIN, for small and large factors of either sign -- an estimate of the
+    // product in binary64 cannot tell them from an overflow (seeded change C01-8: an f64 early-out `to_seconds() * q >
+    // MAX.to_seconds()`, which fires for about one such product in seventy); also sums and differences that close to a bound
+    if n >= 2000 {
+        for i in 0..700usize {
+            let q: i64 = match i % 7 {
+                0 => 2 + r.below(9) as i64,
+                1 => 2 + r.below(1000) as i64,
+                2 => 165,
+                3 => 2 + r.below(1_000_000) as i64,
+                4 => 1 + r.below(1 << 40) as i64,
+                5 => 3,
+                _ => 2 + r.below(100_000) as i64,
+            } * if i % 3 == 0 { -1 } else { 1 };
+            let slack = match i % 4 { 0 => r.below(1_000), 1 => r.below(1_000_000), 2 => r.below(50_000_000), _ => r.below(400) } as i128;
+            let target = if i % 2 == 0 { DMAX - slack } else { DMIN + slack };
+            let d = target / q as i128; // truncation keeps |d * q| <= |target|: representable
+            if d <= -NPC {
+                continue; // operands below -1 century are the recorded finding D1: not aimed at here
+            }
+            writeln!(out, "muli {} {}", dstr(d), q).unwrap();
+            if i % 5 == 0 {
+                writeln!(out, "imul {} {}", q, dstr(d)).unwrap();
+            }
+            if i % 10 == 1 {
+                let a = target / 2 + r.below(1_000_000) as i128;
+                writeln!(out, "add {} {}", dstr(a), dstr(target - a)).unwrap();
+                writeln!(out, "sub {} {}", dstr(a), dstr(a - target)).unwrap();
+            }
+            n = n.saturating_sub(1);
+        }
+    }
     // boundary block for Mul<i64>: factor pairs whose exact product is 2^63 or 2^64 ns (the i64 / u64 limits inside the
     // implementation), one either side, all sign combinations (a seeded change wrong at exactly +2^63 was hit once)
     if n >= 2000 {
